@@ -24,12 +24,12 @@ const (
 	idNull    = 29
 )
 
-func p(id int) *T           { return &T{K: "p", ID: id} }
-func rec(fs ...F) *T        { return &T{K: "r", Fields: fs} }
-func arr(t *T) *T           { return &T{K: "a", Elems: []*T{t}} }
-func set(t *T) *T           { return &T{K: "s", Elems: []*T{t}} }
-func mp(k, v *T) *T         { return &T{K: "m", Elems: []*T{k, v}} }
-func un(ts ...*T) *T        { return &T{K: "u", Elems: ts} }
+func p(id int) *T             { return &T{K: "p", ID: id} }
+func rec(fs ...F) *T          { return &T{K: "r", Fields: fs} }
+func arr(t *T) *T             { return &T{K: "a", Elems: []*T{t}} }
+func set(t *T) *T             { return &T{K: "s", Elems: []*T{t}} }
+func mp(k, v *T) *T           { return &T{K: "m", Elems: []*T{k, v}} }
+func un(ts ...*T) *T          { return &T{K: "u", Elems: ts} }
 func named(n string, t *T) *T { return &T{K: "n", Name: n, Elems: []*T{t}} }
 
 func d0() []*T { return []*T{p(idInt64), p(idString), p(idFloat64), p(idNull)} }
